@@ -445,9 +445,11 @@ where
         Statement::If(x) => {
             let condition = walk_rvalue(ctx, locals, x.condition, source, visitor, diagnostics)?;
             let condition_label = visitor.mark_branch_point();
+            // a declaration made directly in a branch (`if (c) let v = ...;`) must not outlive the branch
+            let mut consequence_locals = locals.clone();
             walk_stmt(
                 ctx,
-                locals,
+                &mut consequence_locals,
                 break_label,
                 x.consequence,
                 source,
@@ -456,7 +458,16 @@ where
             )?;
             let consequence_label = visitor.mark_branch_point();
             let alternative_label = if let Some(n) = x.alternative {
-                walk_stmt(ctx, locals, break_label, n, source, visitor, diagnostics)?;
+                let mut alternative_locals = locals.clone();
+                walk_stmt(
+                    ctx,
+                    &mut alternative_locals,
+                    break_label,
+                    n,
+                    source,
+                    visitor,
+                    diagnostics,
+                )?;
                 Some(visitor.mark_branch_point())
             } else {
                 None
